@@ -1,8 +1,25 @@
 From Goat Require Import Base.Prelude Model.GoatBlock Cases.Common.
-Definition gcase : Type := (list ptx * pfacts * bool * option bool)%type.
-Definition g_model (c : gcase) : bool * option bool :=
-  let '(txs, f, _, m) := c in (process txs f, match m with Some _ => Some (new_eth_block_ok f) | None => None end).
-Definition g_observed (c : gcase) : bool * option bool := let '(_, _, a, m) := c in (a, m).
-Definition g_eqb (x y : bool * option bool) : bool :=
-  Bool.eqb (fst x) (fst y) && match snd x, snd y with Some a, Some b => Bool.eqb a b | None, None => true | _, _ => false end.
-Definition mismatches (start : N) (cs : list gcase) : list (N * (bool * option bool)) := mismatches_from g_model g_observed g_eqb start cs.
+(* a case: the proposal's transactions, the facts about the payload, ProcessProposal's verdict, the result of the
+   block message when finalised, and - when the proposal carries a payload - the real inputs of VerifyDequeue: the
+   system transactions the two modules' dequeue functions return on the committed state, the payload's extra
+   data and its transactions.  The dequeue fact is then COMPUTED by the model's verify_dequeue from those
+   bytes; the fact the harness asserts from the way it built the mutation must agree with it. *)
+Definition dq : Type := (list bytes * bytes * list bytes)%type.
+Definition gcase : Type := (list ptx * pfacts * bool * option bool * option dq)%type.
+Definition with_dequeue (f : pfacts) (b : bool) : pfacts :=
+  mkPF (f_proposer_is_cons f) (f_recipient_is_proposer f) (f_timestamp_ok f) (f_parent_ok f) (f_number_ok f)
+       (f_requests_decodable f) (f_gas_requests f) (f_beacon_ok f) b (f_engine_valid f) (f_blob_gas_zero f) (f_sub_requests_ok f).
+Definition g_facts (c : gcase) : pfacts :=
+  let '(_, f, _, _, d) := c in
+  match d with Some (due, extra, txs) => with_dequeue f (verify_dequeue due extra txs) | None => f end.
+(* third component: the asserted fact equals the computed one *)
+Definition g_model (c : gcase) : bool * option bool * bool :=
+  let '(txs, f, _, m, d) := c in
+  let f' := g_facts c in
+  (process txs f', match m with Some _ => Some (new_eth_block_ok f') | None => None end,
+   match d with Some _ => Bool.eqb (f_dequeue_ok f) (f_dequeue_ok f') | None => true end).
+Definition g_observed (c : gcase) : bool * option bool * bool := let '(_, _, a, m, _) := c in (a, m, true).
+Definition g_eqb (x y : bool * option bool * bool) : bool :=
+  let '(x1, x2, x3) := x in let '(y1, y2, y3) := y in
+  Bool.eqb x1 y1 && match x2, y2 with Some a, Some b => Bool.eqb a b | None, None => true | _, _ => false end && Bool.eqb x3 y3.
+Definition mismatches (start : N) (cs : list gcase) : list (N * (bool * option bool * bool)) := mismatches_from g_model g_observed g_eqb start cs.
